@@ -1,5 +1,5 @@
 #!/bin/bash
 # tools/try_neutral_all.sh [pattern]  -- run every saved neutral patch (neutral/*.diff) through the quick checks in parallel and summarise
 cd /verif
-ls neutral/${1:-N}*_?.diff | xargs -P 8 -I{} sh -c 'tools/try_patch.sh {} > /tmp/np_$(basename {}).out 2>&1'
-for f in neutral/${1:-N}*_?.diff; do tail -1 /tmp/np_$(basename $f).out; done
+ls neutral/${1:-}*_?.diff | xargs -P 8 -I{} sh -c 'tools/try_patch.sh {} > /tmp/np_$(basename {}).out 2>&1'
+for f in neutral/${1:-}*_?.diff; do tail -1 /tmp/np_$(basename $f).out; done
